@@ -6,6 +6,7 @@ import Gpa.Generated.Facts
 import Gpa.Model.Hex
 import Gpa.Model.Health
 import Gpa.Model.RbacWire
+import Gpa.Model.PipelineWire
 
 open Gpa
 
@@ -34,6 +35,22 @@ def stepLine (st : DState) (line : String) : DState × String :=
       | some (it, u, c) =>
           let d := fun (b : Bool) => if b then "allow" else "deny"
           (st, s!"{d (Rbac.isAllowed (Rbac.compute it) u c)} {d (Rbac.specAllowed it u c)} {if Rbac.distinctNames it then 1 else 0}")
+      | none => (st, "bad-op")
+  | "pipe" :: toks =>
+      match Tok.run (do let e ← Pipeline.pEnv; let c ← Pipeline.pConn; let r ← Pipeline.pReq; pure (e, c, r)) toks with
+      | some (e, c, r) =>
+          (st, s!"S{if Pipeline.specMayRelay e c r then 1 else 0} " ++ Pipeline.showResult (Pipeline.handle Pipeline.macPlaceholder e c r))
+      | none => (st, "bad-op")
+  | "canon" :: toks =>
+      -- canon <method> <uri> <headers> <body>: both signing routes
+      match Tok.run (do let m ← Tok.str; let u ← Rbac.pUri
+                        let hs ← Tok.list (do let n ← Tok.str; let v ← Pipeline.byteStr; pure (n, v))
+                        let b ← Tok.bytes; pure (m, u, hs, b)) toks with
+      | some (m, u, hs, b) =>
+          let hm := Headers.ofWire hs
+          let a := match Canon.sigInput m b hm u with | some x => Hex.encode x | none => "panic"
+          let bb := match Canon.sigInputBuilder m (some b) hm u with | some x => Hex.encode x | none => "panic"
+          (st, s!"{a} {bb} {if Canon.shouldSkipSig m u then 1 else 0}")
       | none => (st, "bad-op")
   | _ => (st, "bad-op")
 
